@@ -105,60 +105,9 @@ def rule_q(ctx):
              't': 'thread pool', 'thread': 'thread pool', 'concurrent_mp': 'process pool', False: 'inline (no pool)',
              UNKNOWN: 'refused'}
 
-    def const_of(e):
-        if isinstance(e, ast.Constant):
-            return True, e.value
-        return False, None
-
-    def ev(test, value):
-        """truth of `test` when backend == value; None if it depends on something else"""
-        if isinstance(test, ast.UnaryOp) and isinstance(test.op, ast.Not):
-            r = ev(test.operand, value)
-            return None if r is None else not r
-        if isinstance(test, ast.BoolOp):
-            rs = [ev(v, value) for v in test.values]
-            if isinstance(test.op, ast.And):
-                return False if False in rs else (None if None in rs else True)
-            return True if True in rs else (None if None in rs else False)
-        if isinstance(test, ast.Compare) and len(test.ops) == 1 and A.is_name(test.left, 'backend'):
-            op, rhs = test.ops[0], test.comparators[0]
-            if isinstance(rhs, (ast.List, ast.Tuple, ast.Set)) and isinstance(op, (ast.In, ast.NotIn)):
-                vals = [const_of(e) for e in rhs.elts]
-                if not all(k for k, _ in vals):
-                    return None
-                r = any(v is value if isinstance(value, bool) or isinstance(v, bool) else v == value for _, v in vals)
-                return r if isinstance(op, ast.In) else not r
-            k, v = const_of(rhs)
-            if not k:
-                return None
-            same = (v is value) if (isinstance(value, bool) or isinstance(v, bool)) else (v == value)
-            if isinstance(op, (ast.Eq, ast.Is)):
-                return same
-            if isinstance(op, (ast.NotEq, ast.IsNot)):
-                return not same
-        return None
-
     def run_stmts(stmts, value, out):
-        """statements executed for this backend value, in order; stops at a raise. Returns False when it raised."""
-        for st in stmts:
-            if isinstance(st, ast.If) and any(A.is_name(x, 'backend') for x in ast.walk(st.test)):
-                r = ev(st.test, value)
-                if r is None:
-                    out.append(('undecided', st))
-                    return True
-                if not run_stmts(st.body if r else st.orelse, value, out):
-                    return False
-            elif isinstance(st, ast.Raise):
-                out.append(('raise', st))
-                return False
-            else:
-                out.append(('stmt', st))
-        return True
-
-    disp = [n for n in fn.body if isinstance(n, ast.If) and any(A.is_name(x, 'backend') for x in ast.walk(n.test)) and any(
-        isinstance(x, A.FUNC_TYPES) and x.name == L.n_submit for x in ast.walk(n))]
-    if len(disp) != 1:
-        raise AnalysisError('undecidable shape: backend dispatch of lazy_parallel_map not found (candidates: %d)' % len(disp))
+        return L.run_stmts(stmts, value, out, fn=fn)
+    disp = L.dispatch()
     with_items = L.with_.items[0].context_expr if L.with_.items else None
     pool_name = A.dotted(with_items.func) if isinstance(with_items, ast.Call) else None
     imports = {}
@@ -168,7 +117,7 @@ def rule_q(ctx):
                 imports[al.asname or al.name] = '%s.%s' % (n.module, al.name)
     for value, expect in TABLE.items():
         out = []
-        run_stmts([disp[0]], 'no-such-backend' if value is UNKNOWN else value, out)
+        run_stmts(disp, 'no-such-backend' if value is UNKNOWN else value, out)
         got = None
         if any(k == 'undecided' for k, _ in out):
             rep.undecided('Q7', 'parallel_utils.lazy_parallel_map::backend(%r)->%s' % (value, expect), out[-1][1],
